@@ -76,18 +76,37 @@ def gen_docset(rng):
     return sources
 
 
-def vu(x):
-    return {None: None, "past": clock.iso(T0 - 86400), "future": clock.iso(T0 + 86400 * 30)}[x]
+PAST_SPELLINGS = ["Z", ".1Z", ".123Z", ".1234567Z", ".123456789Z", "", "+00:00", "+01:00", "-05:00", ".5+02:00"]
+FUTURE_SPELLINGS = ["Z", ".1Z", ".123Z", ".1234567Z", ".123456789Z", ""]     # (SAML wants UTC; what a zone offset on a future instant does is not asserted)
 
 
-def render(source):
+def vu(x, who="", offsets=True):
+    """validUntil text: the instant one day ago / thirty days ahead, in one of the legal xs:dateTime spellings (chosen by the owner's name)"""
+    if x is None:
+        return None
+    import zlib
+    t = T0 - 86400 if x == "past" else T0 + 86400 * 30
+    sp = (PAST_SPELLINGS if x == "past" else FUTURE_SPELLINGS)
+    if not offsets:
+        # an entity inside an aggregate: a spelling the library's schema validation refuses would take the whole aggregate with it
+        sp = [k for k in sp if "+" not in k and "-" not in k]
+    sp = sp[zlib.crc32(("%s/%s" % (who, x)).encode()) % len(sp)]
+    m = __import__("re").match(r"^(\.\d+)?(Z|[+-]\d\d:\d\d)?$", sp)
+    frac, zone = m.group(1) or "", m.group(2) or ""
+    if zone and zone != "Z":
+        sign = 1 if zone[0] == "+" else -1
+        t += sign * (int(zone[1:3]) * 3600 + int(zone[4:6]) * 60)      # same instant, written in that zone
+    return clock.iso(t, z=False) + frac + zone
+
+
+def render(source, offsets=True):
     ents = []
     for e in source["entities"]:
         e2 = dict(e)
-        e2["valid_until"] = vu(e["valid_until"])
+        e2["valid_until"] = vu(e["valid_until"], e["eid"], offsets=offsets and not source["wrapped"])
         ents.append(e2)
     if source["wrapped"]:
-        return mdgen.entities(ents, valid_until=vu(source["valid_until"]))
+        return mdgen.entities(ents, valid_until=vu(source["valid_until"], "doc:" + ents[0]["eid"] if ents else "doc", offsets=offsets))
     return mdgen.entity(ents[0])
 
 
@@ -200,7 +219,7 @@ def run_mixed(case, ctx, viol, counters, sigs):
         ids = rng.sample(POOL[:5], rng.randint(1, 3))
         src = {"entities": [gen_entity(rng, e, "m%d" % si) for e in ids], "wrapped": True, "valid_until": rng.choice([None, "future", "past"])}
         kind = rng.choice(["remote", "remote-novalidity", "local", "inline"])
-        xml = render(src)
+        xml = render(src, offsets=kind != "remote-novalidity")     # (a source loaded without validity checks still goes through schema validation)
         try:
             if kind.startswith("remote"):
                 store.http = StubHTTP(xml)
